@@ -22,7 +22,7 @@ import re
 import networkx as nx
 import sympy as sp
 
-from ..src import walk, calls, call_name, dotted, const, loc, unparse, norm, AnchorError, ExtractError, last_attr, str_consts
+from ..src import walk, call_name, dotted, const, loc, unparse, norm, AnchorError, ExtractError, last_attr, str_consts
 from ..cfg import CFG
 from ..symx import SymExec, Opaque
 from ..peval import Evaluator, Unknown
@@ -372,23 +372,24 @@ class Flow(object):
         visit(e)
         return out
 
-    def between(self, d, u):
-        """nodes that may execute after definition node d and before use node u without d being executed again."""
-        key = (d, u)
+    def between(self, d, u, avoid=()):
+        """nodes that may execute after definition node d and before use node u without d (or a node of avoid) being executed again."""
+        key = (d, u, tuple(sorted(avoid)))
         if key not in self._between:
             H = self.G.copy()
+            H.remove_nodes_from([n for n in avoid if n not in (d, u)])
             H.remove_edges_from(list(H.in_edges(d)))
             after = nx.descendants(H, d)
             before = nx.ancestors(H, u) if u in H else set()
             self._between[key] = (after & before) - {d}
         return self._between[key]
 
-    def stable(self, d, u, value):
+    def stable(self, d, u, value, avoid=()):
         """no explicit store between d and u rewrites something `value` reads."""
         rd = self.reads(value)
         if not rd:
             return True
-        for n in self.between(d, u):
+        for n in self.between(d, u, avoid):
             written = list(self.stores[n]) + [nm for nm, _, _ in self.defs[n]]
             for w in written:
                 if w == "?":
@@ -511,7 +512,14 @@ class Flow(object):
         return out
 
     def tests(self):
-        return [i for i, d in sorted(self.G.nodes(data=True)) if d["kind"] == "test"]
+        """if tests and the heads of `while <condition>` loops (True edge: into the body, False edge: loop left by its condition)."""
+        out = []
+        for i, d in sorted(self.G.nodes(data=True)):
+            if d["kind"] == "test":
+                out.append(i)
+            elif d["kind"] == "loophead" and isinstance(d.get("stmt"), ast.While) and not isinstance(d["node"], ast.Constant):
+                out.append(i)
+        return out
 
     def rtest(self, i):
         return self.rnode(i)[0]
@@ -534,11 +542,61 @@ class Flow(object):
             g.remove_edges_from([(t, b) for b in self.g.succ_on(t, o)])
         return g
 
-    def only_behind(self, node, edges, src=None):
+    def only_behind(self, node, edges, src=None, drop_back=False):
         """every path from src (default: entry) to node runs through one of the edges."""
-        g = self.cut(edges)
+        g = self.cut(edges, drop_back=drop_back)
         src = self.g.entry if src is None else src
         return not (node in g and src in g and nx.has_path(g, src, node))
+
+    def flag_tests(self):
+        """{x: {test node: polarity}} for the tests that are a bare local name x (or `not x`) which several assignments of expressions reach
+        (`if a: x = p else: x = q ... if x:`); polarity: the outcome of the test on which x is true."""
+        out = {}
+        for t in self.tests():
+            e, pos = self.G.nodes[t]["node"], True
+            while isinstance(e, ast.UnaryOp) and isinstance(e.op, ast.Not):
+                e, pos = e.operand, not pos
+            if isinstance(e, ast.Name) and e.id in self.locals:
+                ds = self.reaching(e.id, t)
+                if len(ds) >= 2 and all(isinstance(v, ast.AST) for _, v in ds):
+                    out.setdefault(e.id, {})[t] = pos
+        return out
+
+    def behind(self, node, pred, src=None, drop_back=False):
+        """every path from src (default: entry) to node runs through a branch edge on which a literal satisfying pred holds.  Besides the
+        literals of the test itself, a test of a flag variable implies the literals of the expression that was assigned to the flag on
+        the path taken (decided on the product of the CFG with `which assignment of the flag is current`)."""
+        edges = self.edges_implying(pred)
+        if self.only_behind(node, edges, src, drop_back):
+            return True
+        src = self.g.entry if src is None else src
+        plain = {(t, b) for t, o in edges for b in self.g.succ_on(t, o)}
+        for x, tests in sorted(self.flag_tests().items()):
+            defs_x = {n for n in self.G.nodes if any(nm == x and not may for nm, _, may in self.defs[n])}
+            start = {(src, d) for d, _ in self.reaching(x, src)} or {(src, None)}
+            seen, work, hit = set(start), list(start), False
+            while work and not hit:
+                a, d = work.pop()
+                nd = a if a in defs_x and a != self.g.entry else d
+                for _, b, data in self.G.out_edges(a, data=True):
+                    if (a, b) in plain or (drop_back and data.get("back")):
+                        continue
+                    if a in tests and d is not None and data.get("cond") in (True, False):
+                        vals = [v for nm, v, _ in self.defs[d] if nm == x and isinstance(v, ast.AST)]
+                        if vals:
+                            rv = self.resolve(vals[0], d)
+                            if self.stable(d, a, rv, avoid=defs_x) and any(pred(l) for l in literals(rv, data["cond"] == tests[a])):
+                                continue
+                    st = (b, nd)
+                    if b == node:
+                        hit = True
+                        break
+                    if st not in seen:
+                        seen.add(st)
+                        work.append(st)
+            if not hit:
+                return True
+        return False
 
     def line(self, i):
         return self.G.nodes[i]["line"]
@@ -697,10 +755,13 @@ def run(repo, chk):
     res = next(iter(rnames))
 
     # attributes _setup_sim_options fills from options.time.* and from its convergence_error parameter
+    fso = Flow(so)
+
     def setup_attr(pred, what):
         out = set()
-        for a in walk(so):
-            if isinstance(a, ast.Assign) and len(a.targets) == 1 and dotted(a.targets[0]) and dotted(a.targets[0]).startswith("self.") and pred(a.value):
+        for i in sorted(fso.G.nodes):
+            a = fso.g.node_ast(i)
+            if isinstance(a, ast.Assign) and len(a.targets) == 1 and dotted(a.targets[0]) and dotted(a.targets[0]).startswith("self.") and pred(fso.resolve(a.value, i)):
                 out.add(dotted(a.targets[0]))
         if not out:
             raise AnchorError("_setup_sim_options: attribute holding %s not found" % what)
@@ -782,8 +843,7 @@ def run(repo, chk):
     for t in fl.tests():
         if t in ftests or t not in inloop:
             continue
-        raw = g.node_ast(t)
-        o = decided_by(raw, counters, -10 ** 9, 10 ** 9, other=lambda d: 7) if counters else None
+        o = decided_by(fl.rtest(t), counters, -10 ** 9, 10 ** 9, other=lambda d: 7) if counters else None
         if o is not None:
             trial_tests[t] = (o, set())
 
@@ -855,7 +915,7 @@ def run(repo, chk):
     for n in err_set + err_other:
         okd = n in err_set and fl.only_behind(n, fail_edges)
         chk.expect(okd, "R-C16-1", "results.error_code is set to error only on a failure branch (line %d)" % fl.line(n), loc(rs, g.node_ast(n)), found=g.label(n))
-    chk.floor("R-C16-1", 18)
+    chk.floor("R-C16-1", 15)
 
     # ---------------------------------------------------------------- R-C16-3 one row per time
     # the clock: what is advanced by the hydraulic timestep inside the loop
@@ -914,10 +974,22 @@ def run(repo, chk):
             if b == "0" and isinstance(xa, ast.BinOp) and isinstance(xa.op, ast.Mod) and unparse(xa.left) in (clock, "float(%s)" % clock, "int(%s)" % clock) and dotted(xa.right) in rep_attrs:
                 return True
         return False
-    grid_edges = fl.edges_implying(is_grid)
-    chk.expect(len({t for t, _ in grid_edges}) == 1 and any(fl.only_behind(s, grid_edges) for s in saves), "R-C16-3", "saving on the report grid is guarded by sim_time % report_timestep == 0", loc(rs),
-               found=[g.label(t) for t, _ in grid_edges])
-    chk.floor("R-C16-3", 3 * 2 + 2 * 2 + 2)
+    # once the report timestep has been classified as a number, a save is reached (within the iteration) only where the grid condition holds
+    def is_numeric(l):
+        c = l.xa
+        if not (l.kind == "truth" and isinstance(c, ast.Call) and isinstance(c.func, ast.Name) and c.func.id == "isinstance" and len(c.args) == 2 and dotted(c.args[0]) in rep_attrs):
+            return False
+        types = {unparse(e) for e in (c.args[1].elts if isinstance(c.args[1], ast.Tuple) else [c.args[1]])}
+        return (types == {"str"} and not l.sign) or ("str" not in types and l.sign)
+    guarded = []
+    for t, o in fl.edges_implying(is_numeric):
+        for b in g.succ_on(t, o):
+            for s in saves:
+                if s in g.reachable(b, g.view(drop_back=True)):
+                    guarded.append(fl.behind(s, is_grid, src=b, drop_back=True))
+    chk.expect(bool(guarded) and all(guarded), "R-C16-3", "saving on the report grid is guarded by sim_time % report_timestep == 0", loc(rs),
+               found=[g.label(t) for t, _ in fl.edges_implying(is_grid)])
+    chk.floor("R-C16-3", 3 + 2 + 1 + 1)
 
     # ---------------------------------------------------------------- R-C16-5 progress
     def is_over(l):
@@ -935,7 +1007,7 @@ def run(repo, chk):
             b = g.succ_on(t, o)
             w = g.can_reach_avoiding(b[0], [head], [], drop_back=False) if b else [t]
             chk.expect(w is None, "R-C16-5", "the loop ends when sim_time exceeds the duration", loc(rs, g.node_ast(t)), found=g.path_text(w) if w else None)
-    else:
+    elif not dur_edges:
         chk.bad("R-C16-5", "the loop ends when sim_time exceeds the duration", loc(rs), found="no test `%s > ...options.time.duration` after the advance" % clock)
     conts = g.nodes_where(lambda node, d: isinstance(node, ast.Continue))
     for c in conts:
@@ -945,7 +1017,7 @@ def run(repo, chk):
     to = repo.func(OPT, "TimeOptions.__setattr__")
     chk.fn(to)
     chk.expect(_timestep_at_least_one(to), "R-C16-5", "options.time.hydraulic_timestep is forced to an integer >= 1", loc(to))
-    chk.floor("R-C16-5", 7)
+    chk.floor("R-C16-5", 6)
 
     # ---------------------------------------------------------------- R-C16-2 solver status discipline
     sv = repo.func(SOLV, "NewtonSolver.solve")
@@ -991,7 +1063,7 @@ def run(repo, chk):
                 conv_nodes.extend(m.node for m in fs.origins(v.elts[0], lf.node) if m.kind == "expr" and (dotted(m.ast) or "").endswith("SolverStatus.converged"))
         chk.expect(ok3, "R-C16-2", "solve returns a (SolverStatus, message, iterations) triple at line %d" % fs.line(r), loc(sv, gs.node_ast(r)), found=[lf.text()[:80] for lf in leaves])
         if conv_nodes:
-            okc = all(fs.only_behind(n, tol_edges) for n in conv_nodes)
+            okc = all(fs.only_behind(n, tol_edges) or fs.behind(n, lambda l: is_empty(l) or any(is_tol(l, t_) for t_ in fs.tests())) for n in conv_nodes)
             chk.expect(okc, "R-C16-2", "`converged` is returned only under the tolerance test (line %d)" % fs.line(r), loc(sv, gs.node_ast(r)),
                        "a failed solve must never be reported as converged")
     errtxt = " ".join(kinds.get("error", []))
@@ -1093,7 +1165,7 @@ def run(repo, chk):
             for lf in leaves:
                 sts |= leaf_status(fh, lf, rmap)
         chk.expect(sts == {"error"}, "R-C16-2", "fsolve's ier != 1 is mapped to SolverStatus.error (edge at line %d)" % fh.line(t), loc(sh, gh.node_ast(t)), found=sorted(sts))
-    chk.floor("R-C16-2", 8 + 4 + 4 + 3)
+    chk.floor("R-C16-2", 15)
 
     # ---------------------------------------------------------------- R-C16-4 families
     NODE_KEYS = {"head", "demand", "pressure", "leak_demand"}
@@ -1101,12 +1173,42 @@ def run(repo, chk):
     init = repo.func(HYD, "initialize_results_dict")
     chk.fn(init)
 
+    def unroll(ex, gens, key, value, st):
+        """{key: value for target in <literal tuple>} evaluated item by item; None if the iterable is not a literal of constants"""
+        if len(gens) != 1 or gens[0].ifs:
+            return None
+        it = ex.ev(gens[0].iter, st)
+        if not (isinstance(it, (list, tuple)) and it and all(isinstance(x, (str, int)) for x in it)):
+            return None
+        out = {}
+        for x in it:
+            sub = st.fork()
+            ex.assign(gens[0].target, x, sub)
+            k = ex.ev(key, sub)
+            if not isinstance(k, (str, int)):
+                return None
+            out[k] = ex.ev(value, sub)
+        return out
+
+    class TableExec(SymExec):
+        def e_DictComp(self, n, st):
+            r = unroll(self, n.generators, n.key, n.value, st)
+            return r if r is not None else SymExec.e_DictComp(self, n, st)
+
     def dict_hook(name, n, args, kwargs, st, ex, recv=None):
-        if name in ("OrderedDict", "dict", "collections.OrderedDict") and not args and not kwargs:
-            return {}
+        if name in ("OrderedDict", "dict", "collections.OrderedDict") and not kwargs:
+            if not args:
+                return {}
+            a = n.args[0] if len(n.args) == 1 else None
+            if isinstance(a, (ast.GeneratorExp, ast.ListComp)) and isinstance(a.elt, ast.Tuple) and len(a.elt.elts) == 2:
+                r = unroll(ex, a.generators, a.elt.elts[0], a.elt.elts[1], st)
+                if r is not None:
+                    return r
+            if len(args) == 1 and isinstance(args[0], dict):
+                return dict(args[0])
         return NotImplemented
     wn0 = init.args.args[0].arg if init.args.args else "wn"
-    outs = [o for o in SymExec(call_hook=dict_hook).run(init) if o.raised is None]
+    outs = [o for o in TableExec(call_hook=dict_hook).run(init) if o.raised is None]
     if not outs or any(not (isinstance(o.ret, (tuple, list)) and len(o.ret) == 2 and all(isinstance(x, dict) for x in o.ret)) for o in outs):
         raise ExtractError("initialize_results_dict: the returned (node tables, link tables) pair could not be evaluated")
     for k, (what, want, over) in enumerate((("node", NODE_KEYS, "nodes"), ("link", LINK_KEYS, "links"))):
@@ -1241,7 +1343,7 @@ def run(repo, chk):
                     t2 = f.resolve(c.args[1], i)
                     out.append(tuple(sorted(unparse(e) for e in (t2.elts if isinstance(t2, ast.Tuple) else [t2]))))
         return out
-    cs, cl = classify(so, Flow(so)), classify(rs, fl)
+    cs, cl = classify(so, fso), classify(rs, fl)
     if not cs or not cl:
         raise ExtractError("classification of report_timestep not found (setup %s, loop %s)" % (cs, cl))
     chk.expect(set(cs) == set(cl), "R-C16-6", "report_timestep is classified (number vs 'ALL') by the same type test in _setup_sim_options and in the simulation loop", loc(rs),
@@ -1308,6 +1410,40 @@ def _timestep_at_least_one(to):
     return True
 
 
+# the report block of run_sim as it is today, and with both report modes merged behind one flag
+_REPORT_BLOCK = (
+    '            if not isinstance(self._report_timestep, str):  # same test as in _setup_sim_options (numpy integers are numbers too)\n'
+    '                if self._wn.sim_time % self._report_timestep == 0:\n'
+    '                    wntr.sim.hydraulics.save_results(self._wn, node_res, link_res)\n'
+    '                    if len(results.time) > 0 and int(self._wn.sim_time) == results.time[-1]:\n'
+    '                        if int(self._wn.sim_time) != self._wn.sim_time:\n'
+    "                            raise RuntimeError('Time steps increments smaller than 1 second are forbidden.'+\n"
+    "                                               ' Keep time steps as an integer number of seconds.')\n"
+    '                        else:\n'
+    "                            raise RuntimeError('Simulation already solved this timestep')\n"
+    '                    results.time.append(int(self._wn.sim_time))\n'
+    "            elif self._report_timestep.upper() == 'ALL':\n"
+    '                wntr.sim.hydraulics.save_results(self._wn, node_res, link_res)\n'
+    '                if len(results.time) > 0 and int(self._wn.sim_time) == results.time[-1]:\n'
+    "                    raise RuntimeError('Simulation already solved this timestep')\n"
+    '                results.time.append(int(self._wn.sim_time))\n'
+)
+_REPORT_BLOCK_MERGED = (
+    '            numeric = not isinstance(self._report_timestep, str)\n'
+    '            if numeric:\n'
+    '                report = self._wn.sim_time % self._report_timestep == 0\n'
+    '            else:\n'
+    "                report = self._report_timestep.upper() == 'ALL'\n"
+    '            if report:\n'
+    '                wntr.sim.hydraulics.save_results(self._wn, node_res, link_res)\n'
+    '                if len(results.time) > 0 and int(self._wn.sim_time) == results.time[-1]:\n'
+    '                    if numeric and int(self._wn.sim_time) != self._wn.sim_time:\n'
+    "                        raise RuntimeError('Time steps increments smaller than 1 second are forbidden.'+\n"
+    "                                           ' Keep time steps as an integer number of seconds.')\n"
+    "                    raise RuntimeError('Simulation already solved this timestep')\n"
+    '                results.time.append(int(self._wn.sim_time))\n'
+)
+
 WITNESSES = [
     dict(name="none-iteration-count-formatted", file=CORE, old="trial, str(iter_count), num_isolated_junctions", new="trial, iter_count, num_isolated_junctions", rule="R-C16-6"),
     dict(name="report-timestep-classified-twice", file=CORE, old="            if not isinstance(self._report_timestep, str):  # same test", new="            if isinstance(self._report_timestep, (float, int)):  # same test", rule="R-C16-6"),
@@ -1340,23 +1476,14 @@ WITNESSES = [
     dict(name="link-tables-over-nodes", file=HYD, old="    link_res['setting'] = OrderedDict((name, list()) for name, obj in wn.links())", new="    link_res['setting'] = OrderedDict((name, list()) for name, obj in wn.nodes())", rule="R-C16-4"),
     dict(name="fstring-spec-on-count", file=CORE, old="trial, str(iter_count), num_isolated_junctions, num_isolated_links))",
          new="trial, str(iter_count), num_isolated_junctions, num_isolated_links) + f'{iter_count:<4}')", rule="R-C16-6"),
+    dict(name="backup-status-ignored", file=CORE, old="                solver_status, mesg, iter_count = _solver_helper(self._model, self._backup_solver, self._backup_solver_options)",
+         new="                _unused, mesg, iter_count = _solver_helper(self._model, self._backup_solver, self._backup_solver_options)", rule="R-C16-1"),
+    dict(name="tolerance-test-inverted", file=SOLV, old="            if r_norm < self.tol:\n", new="            if r_norm > self.tol:\n", rule="R-C16-2"),
+    dict(name="failure-continues-instead-of-break", file=CORE, old="                diagnostics.run(last_step='solve', next_step='break')\n                break\n",
+         new="                diagnostics.run(last_step='solve', next_step='break')\n                continue\n", rule="R-C16-1"),
+    dict(name="merged-report-flag-off-grid", file=CORE, old=_REPORT_BLOCK, new=_REPORT_BLOCK_MERGED.replace("% self._report_timestep == 0", "% self._report_timestep >= 0"), rule="R-C16-3"),
     # ---- behaviour-preserving rewrites (each must stay quiet)
-    dict(name="P-extract-record-solved-step", file=CORE, silent=True,
-         old="            if not isinstance(self._report_timestep, str):  # same test as in _setup_sim_options (numpy integers are numbers too)\n"
-             "                if self._wn.sim_time % self._report_timestep == 0:\n"
-             "                    wntr.sim.hydraulics.save_results(self._wn, node_res, link_res)\n"
-             "                    if len(results.time) > 0 and int(self._wn.sim_time) == results.time[-1]:\n"
-             "                        if int(self._wn.sim_time) != self._wn.sim_time:\n"
-             "                            raise RuntimeError('Time steps increments smaller than 1 second are forbidden.'+\n"
-             "                                               ' Keep time steps as an integer number of seconds.')\n"
-             "                        else:\n"
-             "                            raise RuntimeError('Simulation already solved this timestep')\n"
-             "                    results.time.append(int(self._wn.sim_time))\n"
-             "            elif self._report_timestep.upper() == 'ALL':\n"
-             "                wntr.sim.hydraulics.save_results(self._wn, node_res, link_res)\n"
-             "                if len(results.time) > 0 and int(self._wn.sim_time) == results.time[-1]:\n"
-             "                    raise RuntimeError('Simulation already solved this timestep')\n"
-             "                results.time.append(int(self._wn.sim_time))\n",
+    dict(name="P-extract-record-solved-step", file=CORE, silent=True, old=_REPORT_BLOCK,
          new="            self._record_solved_step(results, node_res, link_res)\n",
          also=[("    def _initialize_name_id_maps(self):\n",
                 "    def _record_solved_step(self, out, node_tables, link_tables):\n"
@@ -1466,5 +1593,40 @@ WITNESSES = [
     dict(name="P-solve-status-through-a-variable", file=SOLV, silent=True,
          old="        return (\n            SolverStatus.error,\n            \"Reached maximum number of iterations: \"",
          new="        failed = SolverStatus.error\n        return (\n            failed,\n            \"Reached maximum number of iterations: \""),
+    dict(name="P-failure-report-helper", file=CORE, silent=True,
+         old="                if self._convergence_error:\n"
+             "                    logger.error('Simulation did not converge at time ' + self._get_time() + '. ' + mesg) \n"
+             "                    raise RuntimeError('Simulation did not converge at time ' + self._get_time() + '. ' + mesg)\n"
+             "                warnings.warn('Simulation did not converge at time ' + self._get_time() + '. ' + mesg)\n"
+             "                logger.warning('Simulation did not converge at time ' + self._get_time() + '. ' + mesg)\n"
+             "                results.error_code = wntr.sim.results.ResultsStatus.error\n"
+             "                diagnostics.run(last_step='solve', next_step='break')\n"
+             "                break\n",
+         new="                self._report_failed_step(results, 'Simulation did not converge at time ' + self._get_time() + '. ' + mesg, diagnostics)\n"
+             "                break\n",
+         also=[("    def run_sim(self, solver=NewtonSolver,",
+                "    def _report_failed_step(self, out, text, diag):\n"
+                "        if self._convergence_error:\n"
+                "            logger.error(text)\n"
+                "            raise RuntimeError(text)\n"
+                "        warnings.warn(text)\n"
+                "        logger.warning(text)\n"
+                "        out.error_code = wntr.sim.results.ResultsStatus.error\n"
+                "        diag.run(last_step='solve', next_step='break')\n\n"
+                "    def run_sim(self, solver=NewtonSolver,")]),
+    dict(name="P-result-tables-by-comprehension", file=HYD, silent=True,
+         old="    node_res = OrderedDict()\n    link_res = OrderedDict()\n",
+         new="    node_res = OrderedDict((k, OrderedDict((name, list()) for name, obj in wn.nodes())) for k in ('head', 'demand', 'pressure', 'leak_demand'))\n"
+             "    link_res = {k: OrderedDict((name, list()) for name, obj in wn.links()) for k in ('flowrate', 'velocity', 'status', 'setting')}\n"
+             "    return node_res, link_res\n"),
+    dict(name="P-tolerance-test-named-message-by-percent", file=SOLV, silent=True, old="            if r_norm < self.tol:\n", new="            done = r_norm < self.tol\n            if done:\n",
+         also=[("        return (\n            SolverStatus.error,\n            \"Reached maximum number of iterations: \" + str(outer_iter),\n            outer_iter,\n        )",
+                "        text = \"Reached maximum number of iterations: %d\" % outer_iter\n        return SolverStatus.error, text, outer_iter")]),
+    dict(name="P-data-frame-through-aliases", file=HYD, silent=True,
+         old="        node_res[key] = pd.DataFrame(data=np.array([node_res[key][name] for name in node_names]).transpose(), index=results.time,\n"
+             "                                     columns=node_names)",
+         new="        cols = node_names\n        idx = results.time\n"
+             "        node_res[key] = pd.DataFrame(np.array([node_res[key][n] for n in cols]).transpose(), index=idx, columns=cols)"),
+    dict(name="P-merged-report-flag", file=CORE, silent=True, old=_REPORT_BLOCK, new=_REPORT_BLOCK_MERGED),
     dict(name="no-advance-on-resolve-false", file=CORE, old="            self._wn.sim_time += self._hydraulic_timestep\n", new="            if not resolve or True:\n                pass\n            self._wn.sim_time += self._hydraulic_timestep\n", silent=True),
 ]
